@@ -705,8 +705,13 @@ where
                     current.clear();
 
                     if let Err(e) = interpretation.interpret_frame_data(bytes, &mut current) {
-                        if let BadFrameResponse::Abort(report) = failure_handler.failed_with(e) {
-                            break Err(report);
+                        match failure_handler.failed_with(e) {
+                            BadFrameResponse::Abort(report) => break Err(report),
+                            BadFrameResponse::Ignore => {
+                                // Nothing was interpreted so there is nothing to pass on.
+                                current.clear();
+                                continue;
+                            }
                         }
                     }
                     if is_active {
